@@ -20,33 +20,103 @@ fn shelley_len(g: &GenesisValues) -> u64 {
     g.shelley_epoch_length as u64 / g.shelley_slot_length as u64
 }
 
-/// Shelley-and-later slots: the property exactly as stated, plus the closed form of the epoch
-macro_rules! shelley_rel {
+/// Shelley-and-later slots, first half of the property as stated: sub-slot below the epoch length
+macro_rules! shelley_sub {
     ($name:ident, $net:ident) => {
         #[kani::proof]
         #[kani::unwind(2)]
         fn $name() {
             let g = GenesisValues::$net();
             let slot = any_slot();
-            kani::assume(slot >= g.shelley_known_slot && slot < MAX);
+            kani::assume(slot >= g.shelley_known_slot);
             let (epoch, sub) = g.absolute_slot_to_relative(slot);
             let len = shelley_len(&g);
             assert!(sub < len, "sub-slot below the Shelley epoch length in slots");
-            assert!(g.relative_slot_to_absolute(epoch, sub) == slot, "relative->absolute inverts absolute->relative (Shelley)");
-            let era_slot = slot - g.shelley_known_slot;
-            let start = g.shelley_known_slot / byron_len(&g); // concrete
-            assert!(epoch >= start && (epoch - start) * len + sub == era_slot, "(epoch - Byron epochs) * epoch length + sub-slot = era slot, i.e. Euclidean division of the era slot");
-            kani::cover!(sub == len - 1 && epoch > g.shelley_start_epoch() + 1, "last slot of a later Shelley epoch");
+            assert!(epoch >= g.shelley_start_epoch(), "Shelley slots lie in epochs from the Shelley start epoch on");
+            kani::cover!(sub == len - 1 && slot > (1 << 39), "last slot of a late Shelley epoch");
             kani::cover!(slot == g.shelley_known_slot, "first Shelley slot");
             core::mem::forget(g);
         }
     };
 }
 // bound: slot symbolic in [shelley_known_slot, 2^40), network concrete; unwind 2 (no loops)
-shelley_rel!(c32_q_mainnet_shelley_rel, mainnet);
-shelley_rel!(c32_q_testnet_shelley_rel, testnet);
-shelley_rel!(c32_q_preview_shelley_rel, preview);
-shelley_rel!(c32_q_preprod_shelley_rel, preprod);
+shelley_sub!(c32_q_mainnet_shelley_sub, mainnet);
+shelley_sub!(c32_q_testnet_shelley_sub, testnet);
+shelley_sub!(c32_q_preview_shelley_sub, preview);
+shelley_sub!(c32_q_preprod_shelley_sub, preprod);
+
+/// Shelley-and-later slots, second half: converting back gives the original slot.
+/// The quotient (epoch) comes from `/`, the remainder from `%`: two independent divider circuits, so the
+/// solver has to prove uniqueness of Euclidean division bit by bit; cost grows ~4x per 2 bits of slot
+/// range (measured on mainnet: 2^30 6 s, 2^32 30 s, 2^34 76 s, 2^36 > 800 s). Hence the smaller bounds.
+fn shelley_rt<const BITS: u32>(g: GenesisValues) {
+    let slot = kani::any::<u64>() & ((1u64 << BITS) - 1);
+    kani::assume(slot >= g.shelley_known_slot);
+    let (epoch, sub) = g.absolute_slot_to_relative(slot);
+    assert!(g.relative_slot_to_absolute(epoch, sub) == slot, "relative->absolute inverts absolute->relative (Shelley)");
+    kani::cover!(epoch > g.shelley_start_epoch() + 1 && sub == shelley_len(&g) - 1, "last slot of a later Shelley epoch");
+    core::mem::forget(g);
+}
+macro_rules! shelley_rt {
+    ($name:ident, $net:ident, $bits:expr) => {
+        #[kani::proof]
+        #[kani::unwind(2)]
+        fn $name() {
+            shelley_rt::<$bits>(GenesisValues::$net());
+        }
+    };
+}
+// bound: slot symbolic in [shelley_known_slot, 2^32) (136 years of 1 s slots; mainnet tip in 2026 is < 2^28), network concrete; unwind 2
+shelley_rt!(c32_q_mainnet_shelley_rt32, mainnet, 32);
+shelley_rt!(c32_q_testnet_shelley_rt32, testnet, 32);
+shelley_rt!(c32_q_preview_shelley_rt32, preview, 32);
+shelley_rt!(c32_q_preprod_shelley_rt32, preprod, 32);
+// bound: slot symbolic in [shelley_known_slot, 2^34), network concrete; unwind 2
+shelley_rt!(c32_t_mainnet_shelley_rt34, mainnet, 34);
+shelley_rt!(c32_t_testnet_shelley_rt34, testnet, 34);
+shelley_rt!(c32_t_preview_shelley_rt34, preview, 34);
+shelley_rt!(c32_t_preprod_shelley_rt34, preprod, 34);
+
+/// Shelley-and-later slots: closed form (Euclidean division of the era slot) and successor step
+fn shelley_closed<const BITS: u32>(g: GenesisValues) {
+    let slot = kani::any::<u64>() & ((1u64 << BITS) - 1);
+    kani::assume(slot >= g.shelley_known_slot);
+    let (epoch, sub) = g.absolute_slot_to_relative(slot);
+    let len = shelley_len(&g);
+    let era_slot = slot - g.shelley_known_slot;
+    let start = g.shelley_known_slot / byron_len(&g); // concrete
+    assert!(epoch >= start && (epoch - start) * len + sub == era_slot, "(epoch - Byron epochs) * epoch length + sub-slot = era slot");
+    kani::cover!(epoch > start + 1 && sub == len - 1, "last slot of a later Shelley epoch");
+    core::mem::forget(g);
+}
+fn shelley_seq<const BITS: u32>(g: GenesisValues) {
+    let s = kani::any::<u64>() & ((1u64 << BITS) - 1);
+    kani::assume(s >= g.shelley_known_slot && s + 1 < (1u64 << BITS));
+    let (e1, r1) = g.absolute_slot_to_relative(s);
+    let (e2, r2) = g.absolute_slot_to_relative(s + 1);
+    assert!((e2 == e1 && r2 == r1 + 1) || (e2 == e1 + 1 && r2 == 0 && r1 + 1 == shelley_len(&g)), "successor slot: next sub-slot or first slot of the next epoch");
+    kani::cover!(e2 == e1 + 1, "epoch change");
+    kani::cover!(e2 == e1, "same epoch");
+    core::mem::forget(g);
+}
+macro_rules! shelley_more {
+    ($name:ident, $f:ident, $net:ident, $bits:expr) => {
+        #[kani::proof]
+        #[kani::unwind(2)]
+        fn $name() {
+            $f::<$bits>(GenesisValues::$net());
+        }
+    };
+}
+// bound: slot symbolic in [shelley_known_slot, 2^30), network concrete; unwind 2
+shelley_more!(c32_t_mainnet_shelley_closed30, shelley_closed, mainnet, 30);
+shelley_more!(c32_t_testnet_shelley_closed30, shelley_closed, testnet, 30);
+shelley_more!(c32_t_preview_shelley_closed30, shelley_closed, preview, 30);
+shelley_more!(c32_t_preprod_shelley_closed30, shelley_closed, preprod, 30);
+shelley_more!(c32_t_mainnet_shelley_seq30, shelley_seq, mainnet, 30);
+shelley_more!(c32_t_testnet_shelley_seq30, shelley_seq, testnet, 30);
+shelley_more!(c32_t_preview_shelley_seq30, shelley_seq, preview, 30);
+shelley_more!(c32_t_preprod_shelley_seq30, shelley_seq, preprod, 30);
 
 /// Byron slots: the property exactly as stated. FINDING: the sub-slot is `slot % byron_epoch_length`
 /// (432000) although a Byron epoch has byron_epoch_length / byron_slot_length = 21600 slots.
@@ -57,7 +127,7 @@ macro_rules! byron_rel {
         fn $name() {
             let g = GenesisValues::$net();
             let slot = any_slot();
-            kani::assume(slot < g.shelley_known_slot && slot < MAX);
+            kani::assume(slot < g.shelley_known_slot);
             let (epoch, sub) = g.absolute_slot_to_relative(slot);
             kani::cover!(epoch >= 1, "a Byron slot beyond the first epoch");
             assert!(sub < byron_len(&g), "sub-slot below the Byron epoch length in slots");
@@ -80,7 +150,7 @@ macro_rules! byron_rest {
         fn $name() {
             let g = GenesisValues::$net();
             let slot = any_slot();
-            kani::assume(slot < g.shelley_known_slot && slot < MAX);
+            kani::assume(slot < g.shelley_known_slot);
             let len = byron_len(&g);
             let (epoch, sub) = g.absolute_slot_to_relative(slot);
             assert!(epoch * len <= slot && slot - epoch * len < len, "Byron epoch = floor(slot / epoch length in slots)");
@@ -111,7 +181,7 @@ macro_rules! rel_abs {
         #[kani::unwind(2)]
         fn $name() {
             let g = GenesisValues::$net();
-            let epoch = (kani::any::<u32>() & 0xf_ffff) as u64;
+            let epoch = (kani::any::<u32>() & 0xfff) as u64;
             let sub = (kani::any::<u32>() & 0xf_ffff) as u64;
             let start = g.shelley_start_epoch();
             let byron = epoch < start;
@@ -133,17 +203,17 @@ macro_rules! rel_abs {
         }
     };
 }
-// bound: epoch symbolic < 2^20, sub-slot symbolic < epoch length (< 2^20) of the era of `epoch`, network concrete; unwind 2
-rel_abs!(c32_q_mainnet_rel_abs, mainnet);
-rel_abs!(c32_q_testnet_rel_abs, testnet);
-rel_abs!(c32_q_preprod_rel_abs, preprod);
+// bound: epoch symbolic < 2^12, sub-slot symbolic < epoch length (< 2^20) of the era of `epoch`, network concrete; unwind 2
+rel_abs!(c32_t_mainnet_rel_abs, mainnet);
+rel_abs!(c32_t_testnet_rel_abs, testnet);
+rel_abs!(c32_t_preprod_rel_abs, preprod);
 
 /// preview has start epoch 0: the Byron cover cannot be reached, so it gets its own instance
 #[kani::proof]
 #[kani::unwind(2)]
-fn c32_q_preview_rel_abs() {
+fn c32_t_preview_rel_abs() {
     let g = GenesisValues::preview();
-    let epoch = (kani::any::<u32>() & 0xf_ffff) as u64;
+    let epoch = (kani::any::<u32>() & 0xfff) as u64;
     let sub = (kani::any::<u32>() & 0xf_ffff) as u64;
     let len = shelley_len(&g);
     kani::assume(sub < len);
@@ -165,7 +235,7 @@ macro_rules! wc_step {
             let g = GenesisValues::$net();
             let s1 = any_slot();
             let s2 = any_slot();
-            kani::assume(s1 < s2 && s2 < MAX);
+            kani::assume(s1 < s2);
             let b1 = s1 < g.shelley_known_slot;
             let b2 = s2 < g.shelley_known_slot;
             kani::assume(b1 == b2);
@@ -179,14 +249,15 @@ macro_rules! wc_step {
         }
     };
 }
+// assume: both slots in the same era (cross-era pairs: c32_q_<net>_boundary_wc_step / _wc_mono, which fail on testnet)
 // bound: two symbolic slots s1 < s2 < 2^40 of the same era, network concrete; unwind 2
 wc_step!(c32_q_mainnet_wc_step, mainnet);
 wc_step!(c32_q_testnet_wc_step, testnet);
 wc_step!(c32_q_preview_wc_step, preview);
 wc_step!(c32_q_preprod_wc_step, preprod);
 
-/// wall clock and epoch across the Shelley boundary
-macro_rules! boundary {
+/// epochs across the Shelley boundary
+macro_rules! boundary_epoch {
     ($name:ident, $net:ident) => {
         #[kani::proof]
         #[kani::unwind(2)]
@@ -195,8 +266,7 @@ macro_rules! boundary {
             let k = g.shelley_known_slot;
             let s1 = any_slot();
             let s2 = any_slot();
-            kani::assume(s1 < k && k <= s2 && s2 < MAX);
-            // epoch side
+            kani::assume(s1 < k && k <= s2);
             let (e_last, _) = g.absolute_slot_to_relative(k - 1);
             let (e_first, sub_first) = g.absolute_slot_to_relative(k);
             assert!(k % byron_len(&g) == 0, "the Shelley era starts on a Byron epoch boundary");
@@ -205,20 +275,58 @@ macro_rules! boundary {
             assert!(e1 <= e_last, "Byron slots lie in epochs up to the last Byron epoch");
             let (e2, _) = g.absolute_slot_to_relative(s2);
             assert!(e2 >= e_first, "Shelley slots lie in epochs from the Shelley start epoch on");
-            // wall-clock side
-            let t_last = g.slot_to_wallclock(k - 1);
-            let t_first = g.slot_to_wallclock(k);
-            assert!(t_first == t_last + g.byron_slot_length as u64, "wall clock continuous at the Shelley boundary (last Byron slot lasts one Byron slot length)");
-            assert!(g.slot_to_wallclock(s1) < g.slot_to_wallclock(s2), "wall clock strictly increasing across the boundary");
             kani::cover!(s1 + 1 < k && s2 > k, "pair straddling the boundary");
             core::mem::forget(g);
         }
     };
 }
 // bound: symbolic Byron slot s1 and Shelley slot s2 < 2^40, network concrete (preview has no Byron era: see c32_q_preview_origin); unwind 2
-boundary!(c32_q_mainnet_boundary, mainnet);
-boundary!(c32_q_testnet_boundary, testnet);
-boundary!(c32_q_preprod_boundary, preprod);
+boundary_epoch!(c32_q_mainnet_boundary_epoch, mainnet);
+boundary_epoch!(c32_q_testnet_boundary_epoch, testnet);
+boundary_epoch!(c32_q_preprod_boundary_epoch, preprod);
+
+/// wall clock across the Shelley boundary: the last Byron slot lasts one Byron slot length
+macro_rules! boundary_wc_step {
+    ($name:ident, $net:ident) => {
+        #[kani::proof]
+        #[kani::unwind(2)]
+        fn $name() {
+            let g = GenesisValues::$net();
+            let k = g.shelley_known_slot;
+            let t_last = g.slot_to_wallclock(k - 1);
+            let t_first = g.slot_to_wallclock(k);
+            kani::cover!(k > 0, "there is a Byron era");
+            assert!(t_first == t_last + g.byron_slot_length as u64, "wall clock continuous at the Shelley boundary (last Byron slot lasts one Byron slot length)");
+            core::mem::forget(g);
+        }
+    };
+}
+// bound: concrete (the two slots around shelley_known_slot), network concrete; unwind 2
+boundary_wc_step!(c32_q_mainnet_boundary_wc_step, mainnet);
+boundary_wc_step!(c32_q_testnet_boundary_wc_step, testnet);
+boundary_wc_step!(c32_q_preprod_boundary_wc_step, preprod);
+
+/// wall clock across the Shelley boundary: strictly increasing for any Byron/Shelley pair
+macro_rules! boundary_wc_mono {
+    ($name:ident, $net:ident) => {
+        #[kani::proof]
+        #[kani::unwind(2)]
+        fn $name() {
+            let g = GenesisValues::$net();
+            let k = g.shelley_known_slot;
+            let s1 = any_slot();
+            let s2 = any_slot();
+            kani::assume(s1 < k && k <= s2);
+            kani::cover!(s1 + 1 < k && s2 > k, "pair straddling the boundary");
+            assert!(g.slot_to_wallclock(s1) < g.slot_to_wallclock(s2), "wall clock strictly increasing across the boundary");
+            core::mem::forget(g);
+        }
+    };
+}
+// bound: symbolic Byron slot s1 and Shelley slot s2 < 2^40, network concrete; unwind 2
+boundary_wc_mono!(c32_q_mainnet_boundary_wc_mono, mainnet);
+boundary_wc_mono!(c32_q_testnet_boundary_wc_mono, testnet);
+boundary_wc_mono!(c32_q_preprod_boundary_wc_mono, preprod);
 
 /// preview: no Byron era, both known points coincide
 /// bound: concrete (no symbolic input); unwind 2
@@ -234,37 +342,13 @@ fn c32_q_preview_origin() {
     core::mem::forget(g);
 }
 
-/// consecutive slots: the pair either advances by one sub-slot or opens the next epoch at 0
-macro_rules! shelley_seq {
-    ($name:ident, $net:ident) => {
-        #[kani::proof]
-        #[kani::unwind(2)]
-        fn $name() {
-            let g = GenesisValues::$net();
-            let s = any_slot();
-            kani::assume(s >= g.shelley_known_slot && s + 1 < MAX);
-            let (e1, r1) = g.absolute_slot_to_relative(s);
-            let (e2, r2) = g.absolute_slot_to_relative(s + 1);
-            assert!((e2 == e1 && r2 == r1 + 1) || (e2 == e1 + 1 && r2 == 0 && r1 + 1 == shelley_len(&g)), "successor slot: next sub-slot or first slot of the next epoch");
-            kani::cover!(e2 == e1 + 1, "epoch change");
-            kani::cover!(e2 == e1, "same epoch");
-            core::mem::forget(g);
-        }
-    };
-}
-// bound: slot symbolic in [shelley_known_slot, 2^40 - 1), network concrete; unwind 2
-shelley_seq!(c32_q_mainnet_shelley_seq, mainnet);
-shelley_seq!(c32_q_testnet_shelley_seq, testnet);
-shelley_seq!(c32_q_preview_shelley_seq, preview);
-shelley_seq!(c32_q_preprod_shelley_seq, preprod);
-
 /// vacuity twin: must come back FAILED
 #[kani::proof]
 #[kani::unwind(2)]
 fn c32_v_twin() {
     let g = GenesisValues::mainnet();
     let slot = any_slot();
-    kani::assume(slot >= g.shelley_known_slot && slot < MAX);
+    kani::assume(slot >= g.shelley_known_slot);
     let (_, sub) = g.absolute_slot_to_relative(slot);
     let ok = sub + 1 < shelley_len(&g);
     core::mem::forget(g);
